@@ -122,6 +122,16 @@ std::string describe_live(size_t max) {
     return o;
 }
 
+const char *classify_address(const void *p) {
+    if (!in_arena(p)) return "not-in-custom-arena";
+    uintptr_t a = (uintptr_t)p;
+    auto it = g_ledger.upper_bound(a);
+    if (it != g_ledger.begin()) {
+        --it;
+        if (it->second.side == CUST && a >= it->first && a < it->first + (it->second.size ? it->second.size : 1)) return it->second.live ? "inside-live-custom-block" : "custom-block-touched-after-release";
+    }
+    return "custom-block-out-of-bounds";
+}
 static bool should_fail() {
     g_req++;
     if (g_fail_k > 0 && g_req == g_fail_k) { g_fail_fired = true; g_cnt.fail_fired++; return true; }
